@@ -369,14 +369,14 @@ func run(c *lib.Ctx) error {
 	errs := make([]error, 2)
 	lib.Parallel(2, 2, func(i int) {
 		if i == 0 {
-			r, err := c.TLC("MCArithF", lib.TLCRun{Dir: dir, Module: "MCArithF", Workers: 4, Timeout: 14 * time.Minute,
+			r, err := c.TLC("MCArithF", lib.TLCRun{Dir: dir, Module: "MCArithF", Workers: 2, Timeout: 14 * time.Minute,
 				Files: map[string][]byte{"MCArithF.cfg": cfg(fmt.Sprintf("CONSTANT MaxLen = %d\n", maxLen), "BitsOK", "Shape", "Emit")}})
 			if err == nil && r.ErrKind != "" {
 				err = lib.Infra("ArithF.tla inconsistent: %s %s\n%s", r.ErrName, r.Err, r.ErrTrace)
 			}
 			rG, errs[i] = r, err
 		} else {
-			pres, errs[i] = numx.Prescribe(c, "GenArithF", dir, "GenArithF", rnd, c.Pick(2, 4), 14*time.Minute)
+			pres, errs[i] = numx.Prescribe(c, "GenArithF", dir, "GenArithF", rnd, c.Pick(2, 3), 14*time.Minute)
 		}
 	})
 	for _, e := range errs {
